@@ -305,8 +305,62 @@ func c15CliCase(r *Rand, mask int) string {
 	return "cli " + strings.Join(toks, "+")
 }
 
+func c15ApiCase(r *Rand) string {
+	mode := Pick(r, []string{"notify", "poll"})
+	content := []byte{}
+	for i, n := 0, Pick(r, []int{0, 1, 5, 20, 200}); i < n; i++ {
+		content = append(content, Pick(r, c15Alpha))
+	}
+	size, pos, closed := len(content), 0, false
+	var calls []string
+	for i, n := 0, r.Range(2, 12); i < n; i++ {
+		switch k := r.Intn(10); {
+		case k < 5: // Read – only when it cannot block (bytes unread, or closed)
+			if closed || pos < size {
+				n := Pick(r, []int{1, 2, 3, 7, 64, 4096})
+				calls = append(calls, fmt.Sprintf("R%d", n))
+				if !closed {
+					if size-pos < n {
+						n = size - pos
+					}
+					pos += n
+				}
+			}
+		case k < 7:
+			b := make([]byte, r.Range(1, 9))
+			for j := range b {
+				b[j] = Pick(r, c15Alpha)
+			}
+			calls = append(calls, "A"+Hex(b))
+			size += len(b)
+		case k < 9:
+			calls = append(calls, "D")
+			if !closed {
+				pos = size
+			}
+		default:
+			calls = append(calls, "C")
+			closed = true
+		}
+	}
+	if r.Chance(1, 3) { // Read after Close answers EOF, also with bytes unread
+		calls = append(calls, "A"+Hex([]byte("late")), "C", "R8", "D", "R1", "C")
+	}
+	if len(calls) == 0 {
+		calls = append(calls, "D")
+	}
+	return fmt.Sprintf("api %s %d %s %s", mode, r.Intn(2), Hex(content), strings.Join(calls, ","))
+}
+
 func c15WireGenAll(r *Rand, tier string) []string {
 	var out []string
+	na := 30
+	if tier == "thorough" {
+		na = 400
+	}
+	for i := 0; i < na; i++ {
+		out = append(out, c15ApiCase(r))
+	}
 	for reopen := 0; reopen < 2; reopen++ {
 		for poll := 0; poll < 2; poll++ {
 			for exists := 0; exists < 2; exists++ {
@@ -332,4 +386,104 @@ func c15WireGenAll(r *Rand, tier string) []string {
 		out = append(out, c15CliCase(r, follow[i]))
 	}
 	return out
+}
+
+// ---------------------------------------------------------------- api: Read / Drain / Close from one goroutine
+//
+//	api <notify|poll> <reopen 0|1> <content hex> <call>,<call>,…      calls: R<n> Read(buf[:n])  D Drain()  C Close()  A<hex> append
+//
+// answer: ok <r<hex>|eof|ok|block>,… delivered=<bytes returned since the last Drain>.  A Read that does not come back
+// within 300 ms is `block` and ends the run (the model stops there too).
+func c15Api(f []string) string {
+	if len(f) < 5 {
+		return "bad-op"
+	}
+	poll, reopen := f[1] == "poll", f[2] == "1"
+	dir, err := c15WireDir()
+	if err != nil {
+		return "harness-error " + err.Error()
+	}
+	defer os.RemoveAll(dir)
+	path := filepath.Join(dir, "followed.log")
+	if err := os.WriteFile(path, UnHex(f[3]), 0o644); err != nil {
+		return "harness-error " + err.Error()
+	}
+	r, err := followreader.New(path, reopen, poll)
+	if err != nil {
+		return "ok newerr"
+	}
+	if pr, ok := r.(*followreader.PollingFollowReader); ok {
+		pr.PollDelay = time.Millisecond
+	}
+	var res []string
+	delivered := 0
+	blocked, closed := false, false
+	for _, c := range strings.Split(f[4], ",") {
+		if c == "" {
+			continue
+		}
+		switch c[0] {
+		case 'R':
+			n := 0
+			fmt.Sscanf(c[1:], "%d", &n)
+			type rr struct {
+				b   []byte
+				err error
+			}
+			ch := make(chan rr, 1)
+			go func() {
+				buf := make([]byte, n)
+				k, err := r.Read(buf)
+				ch <- rr{buf[:k], err}
+			}()
+			select {
+			case x := <-ch:
+				switch {
+				case x.err == io.EOF && len(x.b) == 0:
+					res = append(res, "eof")
+				case x.err != nil:
+					res = append(res, "err:"+x.err.Error())
+				default:
+					res = append(res, "r"+Hex(x.b))
+					delivered += len(x.b)
+				}
+			case <-time.After(300 * time.Millisecond):
+				res = append(res, "block")
+				blocked = true
+			}
+		case 'D':
+			if err := r.Drain(); err != nil {
+				res = append(res, "err:"+err.Error())
+			} else {
+				res = append(res, "ok")
+				if !closed { // Drain of a closed reader has no file to seek in
+					delivered = 0
+				}
+			}
+		case 'C':
+			if err := r.Close(); err != nil {
+				res = append(res, "err:"+err.Error())
+			} else {
+				res = append(res, "ok")
+				closed = true
+			}
+		case 'A':
+			fh, err := os.OpenFile(path, os.O_WRONLY|os.O_APPEND, 0)
+			if err != nil {
+				return "harness-error " + err.Error()
+			}
+			fh.Write(UnHex(c[1:]))
+			fh.Close()
+			res = append(res, "ok")
+		default:
+			return "bad-op"
+		}
+		if blocked {
+			break
+		}
+	}
+	if !blocked {
+		r.Close()
+	}
+	return fmt.Sprintf("ok %s delivered=%d", strings.Join(res, ","), delivered)
 }
